@@ -229,6 +229,15 @@ func (g *rgen) genVal(t types.Type, path, fname string, depth int) string {
 		}
 	case *types.Struct:
 		return g.genStruct(t, path, depth)
+	case *types.Slice:
+		if n, ok := u.Elem().(*types.Named); ok && n.Obj().Name() == "Strategy" {
+			g.needStub = true
+			sq := "zz_strategy."
+			if g.pkgPath == modPath+"/strategy" {
+				sq = ""
+			}
+			return "[]" + sq + "Strategy{&zzStub{w: " + g.newGrid(path+"[0].warmup") + ", seed: zzSeed}, &zzStub{w: " + g.newGrid(path+"[1].warmup") + ", seed: zzSeed + 1}, &zzStub{w: " + g.newGrid(path+"[2].warmup") + ", seed: zzSeed + 2}}"
+		}
 	case *types.Interface:
 		if n, ok := t.(*types.Named); ok {
 			switch n.Obj().Name() {
@@ -497,7 +506,7 @@ func (e *Engine) genHarness(fi *FuncInfo, ncases int) (string, string) {
 		consts = `"Buy": 1.0, "Sell": -1.0, "Hold": 0.0,`
 	}
 	g.imports["encoding/json"] = ""
-	for _, p := range []string{"fmt", "math", "os", "reflect", "strconv", "sync", "sync/atomic", "testing", "time", "unsafe"} {
+	for _, p := range []string{"fmt", "math", "os", "reflect", "runtime", "strconv", "sync", "sync/atomic", "testing", "time", "unsafe"} {
 		g.imports[p] = ""
 	}
 	var sb strings.Builder
@@ -767,6 +776,7 @@ func TestZZReplay(t *testing.T) {
 					return
 				}
 			}
+			zzBase := runtime.NumGoroutine()
 			%s %s(%s)
 			var wg sync.WaitGroup
 			%s
@@ -778,6 +788,10 @@ func TestZZReplay(t *testing.T) {
 			distinct[fmt.Sprint(cfg, zzN, zzPattern)] = true
 			if !finished {
 				failures = append(failures, failure{Kind: "hang", Text: "outputs not closed within 2s", Config: cfg, Inputs: inputs, Outputs: outputs})
+				return
+			}
+			if zzLeak := zzGoroutinesSettle(zzBase); zzLeak > 0 {
+				failures = append(failures, failure{Kind: "leak", Text: fmt.Sprintf("%%d goroutine(s) still running 300ms after every output was drained to its close", zzLeak), Config: cfg, Inputs: inputs, Outputs: outputs})
 				return
 			}
 			for _, cl := range clauses {
